@@ -932,3 +932,55 @@ Proof.
            rewrite E in Hx. pose proof (index_of_inj _ _ _ _ Hx Hj) as E2.
            apply (index_of_None _ _ Eb). rewrite <- E2. apply nth_In. lia.
 Qed.
+
+Lemma ngrams_exact_length {A} (s : list A) n G : In G (ngrams_of s n Exact) -> length G = n.
+Proof.
+  unfold ngrams_of. intros H. apply in_flat_map in H. destruct H as [i [_ H]].
+  destruct (i + n <=? length s)%nat eqn:E; [|destruct H]. destruct H as [<-|[]].
+  apply slice_length. apply Nat.leb_le. exact E.
+Qed.
+
+Lemma ngrams_subgrams_length {A} (s : list A) n G : In G (ngrams_of s n Subgrams) -> (1 <= length G <= n)%nat.
+Proof.
+  unfold ngrams_of. intros H. apply in_flat_map in H. destruct H as [i [_ H]].
+  apply in_flat_map in H. destruct H as [j [Hj H]]. apply in_seq in Hj.
+  destruct (i + j <=? length s)%nat eqn:E; [|destruct H]. destruct H as [<-|[]].
+  rewrite slice_length by (apply Nat.leb_le; exact E). lia.
+Qed.
+
+(* two NoDup lists with the same elements have the same length *)
+Lemma NoDup_same_length (l1 l2 : list Z) :
+  NoDup l1 -> NoDup l2 -> (forall x, In x l1 <-> In x l2) -> length l1 = length l2.
+Proof. intros N1 N2 H. apply Permutation_length. apply NoDup_Permutation; assumption. Qed.
+
+(* '+' of two models fitted without pruning vs. one model fitted on the concatenated corpora *)
+Theorem add_vs_concat Xa Xb ord c :
+  Permutation ord (disjoint_vocab (uni_fit Xa) (uni_fit Xb)) ->
+  ng_add ord (uni_fit Xa) (uni_fit Xb) = Ok c ->
+  let la := sort_uniq (concat Xa) in let lb := sort_uniq (concat Xb) in
+  let lc := la ++ ord in let lf := sort_uniq (concat (Xa ++ Xb)) in
+  let f := uni_fit (Xa ++ Xb) in
+  counts_ok c lc (Xa ++ Xb) /\
+  (forall l, In l lc <-> In l la \/ In l lb) /\
+  (forall l, In l lc <-> In l lf) /\
+  nrows (u_train c) = nrows (u_train f) /\ ncols (u_train c) = ncols (u_train f) /\
+  (forall i l jc jf, (i < length (Xa ++ Xb))%nat -> index_of l lc = Some jc -> index_of l lf = Some jf ->
+     cell (entries (u_train c)) (Z.of_nat i) jc = cell (entries (u_train f)) (Z.of_nat i) jf).
+Proof.
+  intros P Hadd la lb lc lf f.
+  pose proof (uni_fit_counts_ok Xa) as Ca. pose proof (uni_fit_counts_ok Xb) as Cb.
+  pose proof (uni_fit_counts_ok (Xa ++ Xb)) as Cf. fold la in Ca. fold lb in Cb. fold lf f in Cf.
+  destruct (ng_add_counts_ok ord _ la Xa _ lb Xb Ca Cb P) as [c' [Hc' Cc]].
+  rewrite Hadd in Hc'. injection Hc' as <-. fold lc in Cc.
+  assert (NDa : NoDup la) by apply sort_uniq_NoDup. assert (NDb : NoDup lb) by apply sort_uniq_NoDup.
+  assert (P' : Permutation ord (filter (fun l => negb (memZ l la)) lb)).
+  { rewrite <- (disjoint_vocab_wf (uni_fit Xa) la (uni_fit Xb) lb); [exact P|apply Ca|apply Cb]. }
+  destruct (perm_disjoint_facts la lb ord NDa NDb P') as [NDc Hin]. fold lc in NDc, Hin.
+  assert (Hsame : forall l, In l lc <-> In l lf).
+  { intros l. rewrite Hin. unfold la, lb, lf. rewrite !sort_uniq_In, concat_app, in_app_iff. reflexivity. }
+  split; [exact Cc|]. split; [exact Hin|]. split; [exact Hsame|].
+  destruct Cc as [_ [Hnc [Hcc [_ [_ Hcellc]]]]]. destruct Cf as [_ [Hnf [Hcf [_ [_ Hcellf]]]]].
+  split; [rewrite Hnc, Hnf; reflexivity|]. split.
+  - rewrite Hcc, Hcf. f_equal. apply NoDup_same_length; [exact NDc|apply sort_uniq_NoDup|exact Hsame].
+  - intros i l jc jf Hi Hjc Hjf. rewrite (Hcellc i l jc Hi Hjc), (Hcellf i l jf Hi Hjf). reflexivity.
+Qed.
